@@ -41,7 +41,7 @@ pub const INFO: PropInfo = PropInfo {
     level: "exploration",
     rule: "cases = input text (+ portable-mode flag). Every text is parsed with Parser::command_line in a loop over a line-serving Input that counts requested lines. Non-trivial = the text yields >= 1 non-empty command whose printed form differs from the input text (printing normalised something), or the text ends in a syntax error located past its first token; distinct by text. Round trip is checked on every command line without here-documents (norm = hand-written S-expression of all public AST fields except Locations); read-ahead on commands that spanned >= 2 lines; function bodies additionally through `typeset -fp` in the virtual shell. Generators: grammar-based programs (every construct the parser knows, nesting <= 4, random blanks/newlines/comments/line continuations), deep nesting 5..40, mutants (char/token delete, duplicate, swap, unbalanced insertions, truncation, line continuations) of grammar and corpus texts, every script embedded in yash-cli/tests/scripted_test/*.sh plus the files themselves, Unicode soup <= 64 chars and token-dictionary soup.",
     assumptions: &[
-        "generated nesting is bounded at 40 levels; texts with more than 130 simultaneously open brackets/keywords (a level can open three) are skipped and counted, because parser recursion is unbounded (known finding F9); a probe run in child processes records where the stack gives out (coverage.stack_probe)",
+        "generated nesting is bounded at 40 levels; texts with more than 130 simultaneously open brackets/keywords (a level can open three) are skipped and counted, because parser recursion is unbounded (open known finding parser-stack-overflow-on-deep-nesting); a probe run in child processes records where the stack gives out (coverage.stack_probe)",
         "here-document bodies are outside the round trip (the single-line form omits them by design): a printed line with here-document operators is completed with empty bodies before it is re-parsed and contents are erased from the comparison; delimiters containing a newline are not judged; function bodies with here-documents are skipped in the typeset path",
         "every parameter in a tree must be a POSIX name (XBD 3.216), a digit string or one special parameter, with the matching type (the only non-metamorphic oracle, together with the names driver: `$` followed by a string takes the longest name / one digit / one special character)",
         "the read-ahead rule is restricted to prefixes that do not end in backslash-newline: such a prefix legitimately forces a look at the next line even if that line adds nothing to the tree",
@@ -1348,7 +1348,11 @@ fn stack_probe(ctx: &Ctx, st: &mut Stats) {
             let key = format!("{kind}:{}", if stack == 0 { "main-thread".to_string() } else { format!("{stack}MiB-thread") });
             let v = match max_depth(kind, stack, cap, dir.path()) {
                 Some((d, true)) => serde_json::json!({"deepest_ok_at_least": d, "note": "no overflow up to the probe cap"}),
-                Some((d, false)) => serde_json::json!({"deepest_ok": d, "note": "a few percent deeper the process dies of stack overflow"}),
+                Some((d, false)) => {
+                    // the open finding parser-stack-overflow-on-deep-nesting, reproduced
+                    *st.known_hits.entry("parser-stack-overflow-on-deep-nesting".to_string()).or_default() += 1;
+                    serde_json::json!({"deepest_ok": d, "note": "a few percent deeper the process dies of stack overflow"})
+                }
                 None => serde_json::json!("could not run the child process"),
             };
             res.insert(key, v);
